@@ -506,7 +506,7 @@ BUILDER_TAIL = "INIT Init\nNEXT Next\nVIEW View\nINVARIANT Inv\nCHECK_DEADLOCK F
 def check_C16(chk):
     bins = vlib.build_harness(["dbg-native"])
     for kind, consts in (("sparse", {"MaxU": 6 if chk.thorough else 5, "MaxCap": 4 if chk.thorough else 3, "MaxLen": 0}),
-                         ("rl", {"MaxU": 0, "MaxCap": 0, "MaxLen": 14 if chk.thorough else 9})):
+                         ("rl", {"MaxU": 0, "MaxCap": 0, "MaxLen": 11 if chk.thorough else 9})):
         c = dict(consts)
         c["Kind"] = '"%s"' % kind
         c["Memory"] = 1
@@ -873,8 +873,19 @@ def stage_schedules(chk, bins, nthreads, steps, mixed=False):
     else:
         line = info.get("unmatched_line")
         ev = vlib.trace_line(tpath, line) if line else None
+        # uniqueness across the run is decided at the last event: locate the first repeated path for the report
+        seen = {}
+        with open(tpath) as f:
+            for i, l in enumerate(f, 1):
+                e = json.loads(l)
+                dup = [n for n in e.get("names", []) if n in seen] or [n for n in e.get("names", []) if e["names"].count(n) > 1]
+                if dup:
+                    ev, line = dict(e, repeated=dup[0], first_returned_at_event=seen.get(dup[0], i)), i
+                    break
+                for n in e.get("names", []):
+                    seen[n] = i
         chk.violation(st, {"kind": "schedule", "threads": nthreads, "schedule": ",".join(str(x) for x in (ev or {}).get("s", [])), "names": (ev or {}).get("names"),
-                           "completed": (ev or {}).get("completed"), "line": line, "info": info})
+                           "completed": (ev or {}).get("completed"), "repeated": (ev or {}).get("repeated"), "line": line, "info": info})
 
 
 def check_C20(chk):
